@@ -60,6 +60,19 @@ func (g *bGen) block(depth int) []*bItem {
 				g.n++
 				it.arms[0] = append(it.arms[0], &bItem{kind: "line", text: fmt.Sprintf("frt.Println \"t%d\"", g.n)})
 			}
+		case k < 9 && g.r.Intn(2) == 0:
+			// a union match that names every case (no default) / one case and a default; in a third of
+			// the defaulted ones the last statement of the case arm is again an exhaustive union match,
+			// directly followed by the OUTER default arm
+			if g.r.Intn(2) == 0 {
+				it = &bItem{kind: "matchU2", arms: [][]*bItem{g.block(depth - 1), g.block(depth - 1)}}
+			} else {
+				first := g.block(depth - 1)
+				if g.r.Intn(3) == 0 {
+					first = append(first, &bItem{kind: "matchU2", arms: [][]*bItem{g.block(depth - 2), g.block(depth - 2)}})
+				}
+				it = &bItem{kind: "matchUD", arms: [][]*bItem{first, g.block(depth - 1)}}
+			}
 		case k < 9:
 			it = &bItem{kind: "matchU", arms: [][]*bItem{g.block(depth - 1), g.block(depth - 1), g.block(depth - 1)}}
 		default:
@@ -190,6 +203,18 @@ func (l *bLayout) block(out *[]string, col int, items []*bItem) {
 			l.opener(out, col, "| \"y\" ->", it.arms[1], true)
 			l.between(out)
 			l.opener(out, col, "| other ->", it.arms[2], true)
+		case "matchU2":
+			l.emit(out, col, "match u with")
+			l.between(out)
+			l.opener(out, col, "| Ua ->", it.arms[0], true)
+			l.between(out)
+			l.opener(out, col, "| Ub n ->", it.arms[1], true)
+		case "matchUD":
+			l.emit(out, col, "match u with")
+			l.between(out)
+			l.opener(out, col, "| Ub _ ->", it.arms[0], true)
+			l.between(out)
+			l.opener(out, col, "| _ ->", it.arms[1], true)
 		case "matchS":
 			l.emit(out, col, "match s with")
 			l.between(out)
@@ -204,7 +229,7 @@ func bRender(funcs [][]*bItem, l *bLayout) string {
 	out := []string{"package main", "", "import frt", "", }
 	for i, f := range funcs {
 		l.between(&out)
-		l.emit(&out, 0, fmt.Sprintf("let f%d (s:string) =", i))
+		l.emit(&out, 0, fmt.Sprintf("let f%d (u:U) (s:string) =", i))
 		l.block(&out, l.indent(), f)
 		out = append(out, "")
 	}
@@ -333,7 +358,10 @@ func bRealShape(src string) (shape string, err string) {
 		}
 	}()
 	ps := vPkgState()
-	ps3 := psSetNewSrc(src, ps)
+	// the union type comes from an earlier file of the same invocation (a type definition spans several
+	// lines without being a block)
+	psT, _ := parseAll(psSetNewSrc("package main\n\ntype U =\n| Ua\n| Ub of int\n\n", ps))
+	ps3 := psSetNewSrc(src, psT)
 	_, stmts := parseAll(ps3)
 	var sb []string
 	for _, s := range stmts {
